@@ -243,10 +243,15 @@ pub fn provider(src: &str, extra: &[(String, String)]) -> Box<MockFileProvider> 
     MockFileProvider::new(m)
 }
 
+/// Root of the repository under test: /repo, or $VERIF_REPO when the checks are tried against a scratch worktree.
+pub fn repo_root() -> PathBuf {
+    PathBuf::from(std::env::var("VERIF_REPO").unwrap_or_else(|_| "/repo".into()))
+}
+
 /// Load the standard `core/*.abra` modules from /repo so programs can `use core/map`.
 pub fn core_modules() -> Vec<(String, String)> {
     let mut v = vec![];
-    let dir = std::path::Path::new("/repo/modules/core");
+    let dir = repo_root().join("modules/core");
     if let Ok(rd) = std::fs::read_dir(dir) {
         for e in rd.flatten() {
             let p = e.path();
